@@ -579,6 +579,72 @@ class Model:
         return f(i['params'], ns, a['pts'])
 
 
+@op('optimize')
+class Optimize:
+    @staticmethod
+    def strategy(draw):
+        return dict(seed=draw(st.integers(0, 3)), n=draw(st.integers(4, 7)), which=draw(st.sampled_from(['object_func', 'optimize_log', 'optimize', 'project'])),
+                    fixed=draw(st.booleans()), multinom=draw(st.booleans()), bounds=draw(st.booleans()))
+
+    @staticmethod
+    def build(a, layout):
+        import dadi
+        model = _LinModel(a['seed'], 2, a['n'])
+        data = dadi.Spectrum(np.round(np.asarray(model([1.2, 0.7], None, None)) * 15))
+        return dict(p0=[1.0, 1.0], data=data, lower=[0.05, 0.05] if a['bounds'] else None, upper=[20.0, 20.0] if a['bounds'] else None,
+                    fixed=[None, 0.7] if a['fixed'] else None)
+
+    @staticmethod
+    def call(a, i):
+        import io
+        from dadi import Inference
+        model = _LinModel(a['seed'], 2, a['n'])
+        kw = dict(lower_bound=i['lower'], upper_bound=i['upper'], fixed_params=i['fixed'], multinom=a['multinom'])
+        if a['which'] == 'project':
+            down = Inference._project_params_down(i['p0'], i['fixed'])
+            return [list(map(float, down)), list(map(float, Inference._project_params_up(down, i['fixed'])))]
+        if a['which'] == 'object_func':
+            p = Inference._project_params_down(i['p0'], i['fixed'])
+            return float(Inference._object_func(p, i['data'], model, [10], output_stream=io.StringIO(), **kw))
+        f = Inference.optimize_log if a['which'] == 'optimize_log' else Inference.optimize
+        return [float(v) for v in f(i['p0'], i['data'], model, [10], maxiter=3, **kw)]
+
+
+@op('phimanip', layouts=['phi'])
+class PhiManipOp:
+    @staticmethod
+    def strategy(draw):
+        nd = draw(st.integers(1, 4))
+        return dict(nd=nd, L=draw(st.integers(5, {1: 12, 2: 9, 3: 7, 4: 5}[nd])), seed=draw(st.integers(0, 5)),
+                    which=draw(st.sampled_from(['split', 'admix-new', 'remove', 'reorder'])), f=draw(st.sampled_from([0.0, 0.25, 1.0])), idx=draw(st.integers(0, 3)))
+
+    @staticmethod
+    def build(a, layout):
+        import dadi
+        return dict(phi=lay(_phi(a['L'], a['nd'], a['seed']), layout), xx=dadi.Numerics.default_grid(a['L']))
+
+    @staticmethod
+    def call(a, i):
+        from dadi import PhiManip
+        nd, phi, xx, f = a['nd'], i['phi'], i['xx'], a['f']
+        w = a['which']
+        if w == 'remove' and nd >= 2:
+            return PhiManip.remove_pop(phi, xx, a['idx'] % nd + 1)
+        if w == 'reorder' and nd >= 2:
+            order = list(range(1, nd + 1))
+            order = order[a['idx'] % nd:] + order[:a['idx'] % nd]
+            return np.array(PhiManip.reorder_pops(phi, order))
+        if nd == 1:
+            return PhiManip.phi_1D_to_2D(xx, phi)
+        if nd == 2:
+            if w == 'split':
+                return [PhiManip.phi_2D_to_3D_split_1, PhiManip.phi_2D_to_3D_split_2][a['idx'] % 2](xx, phi)
+            return PhiManip.phi_2D_to_3D_admix(phi, f, xx, xx, xx)
+        if nd == 3:
+            return PhiManip.phi_3D_to_4D(phi, f, (1 - f) * 0.5, xx, xx, xx, xx)
+        return PhiManip.phi_4D_to_5D(phi, f, (1 - f) * 0.5, 0.0, xx, xx, xx, xx, xx)
+
+
 def op_strategy(names=None):
     names = sorted(names or OPS)
 
